@@ -817,6 +817,15 @@ def check_tokenizer(ctx, table, tf, en, paths):
            'used by the reducer table %s' % (sorted(seen_kw),
                                              sorted(table_kw)))
     # T3 parens
+    for n_ in ast.walk(g.node):
+        mc_ = method_call(n_) if isinstance(n_, ast.Call) else None
+        if mc_ and mc_[1] in ('fullmatch', 'match', 'search', 'finditer',
+                              'groups', 'groupdict'):
+            raise AnalysisError(
+                'the tokenizer %s dissects its words with a regular '
+                'expression (`%s`, line %d): how many parentheses are peeled '
+                'from which side is read off strip()/length arithmetic only'
+                % (g.qual, U(n_)[:50], n_.lineno))
     wrap_open = {r.pattern[0] for r in table
                  if len(r.pattern) == 3 and r.pattern[0] == '('
                  or (len(r.pattern) == 3 and not r.pattern[0].isalpha()
